@@ -972,6 +972,15 @@ class QasmProcessor:
                         QubitCircuit(qc.N), command[4:], custom_gates
                     )
                     continue
+                # OpenQASM compares the register as an integer whose bit 0
+                # is c[0]; a Gate reads its first classical control as the
+                # most significant bit of classical_control_value.
+                classical_control_value = int(
+                    "{:0{}b}".format(
+                        classical_control_value, len(cbit_inds)
+                    )[::-1],
+                    2,
+                )
                 self._gate_add(
                     qc,
                     command[4:],
